@@ -545,13 +545,15 @@ def binding(ctx, exe, quick, rnd):
         "that moved to other system calls (splice, io_uring) would need them added to the wrapper list",
         "raw BufferedFd: the read-zero callback disables the descriptor (what TcpConnection, the only user in the repository, "
         "does); without that the level-triggered read event reports end-of-file on every pass (model: MC_bug_eofrepeat.cfg)",
-        "a fully closing peer first drains its input (no connection reset is provoked on purpose); after a peer close the "
-        "fate of bytes still queued for sending is not constrained",
+        "'pclose' drains the peer's input before closing, 'pabort' resets the connection (SO_LINGER 0); after a reset (peer abort, "
+        "EPIPE/ECONNRESET) bytes the peer wrote may be discarded by the kernel and completeness of the received stream is not "
+        "demanded; after a peer close the fate of bytes still queued for sending is not constrained",
         "quiescence ('Settled') is reached by running loop passes and peer reads until 4 consecutive passes log nothing; only on "
         "loopback TCP the driver additionally waits (<= 3 s, 5 ms steps; observed: <= 50 ms, Nagle + delayed ACK) while data is known to be in flight",
     ]
     ctx.uncovered = [
         "bind()/unbind() forwarding mode of BufferedFd (received bytes passed to another ByteStream) is not exercised",
         "that a send-complete notification is eventually delivered is not demanded (the statement only restricts when it may fire)",
-        "local disconnect: bytes still queued at that moment are dropped by design; only order/no-duplication of what the peer got is checked",
+        "local disconnect: bytes still in the object's own queue at that moment are dropped by design (bytes already written to the "
+        "descriptor must arrive, followed by end-of-file, when the close is clean)",
     ]
